@@ -340,15 +340,31 @@ class DefaultOperatorResolver(OperatorResolver):
             )
 
         def power(arg: OrderedSet[Term], power: OrderedSet[Term]) -> OrderedSet[Term]:
-            power_term = next(iter(power))
+            power_term = next(iter(power)) if len(power) == 1 else None
+            exponent = None
             if (
-                not len(power_term.factors) == 1
-                or not power_term.factors[0].token
-                or power_term.factors[0].token.kind is not Token.Kind.VALUE
-                or not isinstance(ast.literal_eval(power_term.factors[0].expr), int)
+                power_term is not None
+                and len(power_term.factors) == 1
+                and power_term.factors[0].token
+                and power_term.factors[0].token.kind is Token.Kind.VALUE
+            ):
+                try:
+                    exponent = ast.literal_eval(power_term.factors[0].expr)
+                except (ValueError, SyntaxError):
+                    pass
+            if (
+                power_term is None
+                or not isinstance(exponent, int)
+                or isinstance(exponent, bool)
+                or exponent < 1
             ):
                 raise exc_for_token(
-                    power_term.factors[0].token or Token(),
+                    (
+                        power_term.factors[0].token
+                        if power_term is not None and power_term.factors
+                        else None
+                    )
+                    or Token(),
                     "The right-hand argument of `**` must be a positive integer.",
                 )
             return OrderedSet(
